@@ -303,6 +303,8 @@ type Stop struct {
 	Total    int
 	Timeout  bool // never reaches E: runs into the total read timeout
 	Shortcut bool // stopped because exactly an exception-sized frame with the high bit was buffered
+	// EventsUsed is the number of script events consumed when the loop stopped
+	EventsUsed int
 }
 
 // Model simulates the documented read loop (accumulate until total >= E, exception frame seen at exactly 5/9 bytes, EOF
@@ -335,25 +337,28 @@ func Model(kind string, stream []byte, events []xport.Event, E int) Stop {
 		}
 		return Stop{}, false
 	}
-	for _, ev := range events {
+	for i, ev := range events {
 		switch ev.Kind {
 		case "data":
 			step(ev.N)
 			if s, ok := check(false); ok {
+				s.EventsUsed = i + 1
 				return s
 			}
 		case "eof":
 			step(ev.N)
 			if s, ok := check(true); ok {
+				s.EventsUsed = i + 1
 				return s
 			}
 		case "timeout", "empty", "cancel":
 			if s, ok := check(false); ok {
+				s.EventsUsed = i + 1
 				return s
 			}
 		case "ioerr":
-			return Stop{Total: total}
+			return Stop{Total: total, EventsUsed: i + 1}
 		}
 	}
-	return Stop{Total: total, Timeout: true}
+	return Stop{Total: total, Timeout: true, EventsUsed: len(events)}
 }
